@@ -28,7 +28,7 @@ from saml2_tophat.extension import mdattr
 from saml2_tophat.server import Server
 
 CLAIM = {
-    "text": "Coq theorems (Props/C07.v) over the model of _filter_values/_match/filter_on_attributes/filter_attribute_value_assertions/post_entity_categories/Policy.compile,get,filter,restrict/Assertion.apply_policy/Server.setup_assertion/_authn_response/create_attribute_response, for EVERY identity, compiled policy, SP declaration, regex matcher and attribute map (induction over the lists). C07_release_subset: whatever apply_policy leaves in the assertion has identity names and identity values only; when attribute_restrictions apply every released name (lower-cased) is one of their keys and every value matches one of its patterns; when the entity-category rules yield an allowance every released name is in it; otherwise, when required/optional declarations exist, every released name and value is covered by a declaration. C07_every_outcome (FULL, incl. the MissingValue/best_effort path): every outcome of create_authn_response is an exception or an assertion satisfying all four clauses; C07_setup_assertion_every_outcome the same for both values of best_effort (False: error response); C07_best_effort_is_policy_filtered / C07_authn_response_always_answers: on the MissingValue path the assertion is the identity narrowed by Policy.filter run with the SP's demands as wishes, never an error response, MissingValue never escapes; C07_attribute_response_every_outcome for the attribute authority with an aa policy. These are proved for the model of Server.setup_assertion AS REPAIRED by proposed_fix/C07-1.diff (the check expects /repo + that diff); the code before the repair is kept as setup_assertion_before_fix with C07_every_outcome_before_fix_refuted (witness: secret released despite attribute_restrictions, replayed on the implementation) and C07_before_fix_characterised. Entity-category clause, non-circular: C07_category_allowance_exact (post_entity_categories lets through exactly what a row entitles the SP to) and C07_category_allowance_documented / C07_every_outcome_documented_categories (for a policy compiled over the REGENERATED Gen/EntityCat.v every released name is entitled to by a row of the hand-written documented table of a module configured for this SP); C07_entity_category_tables: regenerated tables = documented ones (as sets). ONLY TESTED (not proved): that the model agrees with the Python - function-level and end-to-end correspondence on long-lived Policy/Server objects with request sequences for different SPs, plus an implementation-level release oracle.",
+    "text": "Coq theorems (Props/C07.v) over the model of _filter_values/_match/filter_on_attributes/filter_attribute_value_assertions/post_entity_categories/Policy.compile,get,filter,restrict/Assertion.apply_policy/Server.setup_assertion/_authn_response/create_attribute_response, for EVERY identity, compiled policy, SP declaration, regex matcher and attribute map (induction over the lists). C07_release_subset: whatever apply_policy leaves in the assertion has identity names and identity values only; when attribute_restrictions apply every released name (lower-cased) is one of their keys and every value matches one of its patterns; when the entity-category rules yield an allowance every released name is in it; otherwise, when required/optional declarations exist, every released name and value is covered by a declaration. C07_every_outcome (FULL, incl. the MissingValue/best_effort path): every outcome of create_authn_response is an exception or an assertion satisfying all four clauses; C07_setup_assertion_every_outcome the same for both values of best_effort (False: error response); C07_best_effort_is_policy_filtered / C07_authn_response_always_answers: on the MissingValue path the assertion is the identity narrowed by Policy.filter run with the SP's demands as wishes, never an error response, MissingValue never escapes; C07_attribute_response_every_outcome for the attribute authority with an aa policy. These are proved for the model of Server.setup_assertion AS REPAIRED by proposed_fix/C07-1.diff (the check expects /repo + that diff); the code before the repair is kept as setup_assertion_before_fix with C07_every_outcome_before_fix_refuted (witness: secret released despite attribute_restrictions, replayed on the implementation) and C07_before_fix_characterised. Entity-category clause, non-circular: C07_category_allowance_exact (post_entity_categories lets through exactly what a row entitles the SP to) and C07_category_allowance_documented / C07_every_outcome_documented_categories (for a policy compiled over the REGENERATED Gen/EntityCat.v every released name is entitled to by a row of the hand-written documented table of a module configured for this SP); C07_entity_category_tables: regenerated tables = documented ones (as sets). Restriction LISTS of regular expressions (Model/PolicyRx.v): C07_each_expression_on_its_own - IFF - a value of a regex-restricted attribute is released iff it is an identity value and some SINGLE expression of that attribute's list matches it (each expression compiled and matched on its own by the engine argument); C07_restriction_list_pointwise: the release depends on the engine only through the (expression, value) pairs of the attribute's own list, so a flag of one expression or a merged alternation cannot matter; C07_value_matching_no_expression_withheld. Entity categories from raw metadata: C07_categories_only_under_their_name (IFF: the SP's categories are exactly the values listed under the entity-category Name of EntityAttributes, every occurrence), C07_other_entity_attributes_do_not_count, C07_entitlement_from_raw_metadata (values under entity-category-support or any other Name never entitle). ONLY TESTED (not proved): that the model agrees with the Python - function-level and end-to-end correspondence on long-lived Policy/Server objects with request sequences for different SPs, plus an implementation-level release oracle.",
     "note": "Trusted: Coq kernel + vm_compute; hand-written model tied to the code by the correspondence units; Python re and the attribute maps enter the model as per-case truth tables (quantified in the theorems); str.lower modelled for ASCII, generators use only names on which Python agrees; identities are dicts of lists of strings (a bare string value is outside the model); value multiplicity/order is not compared (list(set(..)) and list aliasing in filter_on_attributes make it unspecified); pefim and encrypt paths, name_form without converter (releases nothing), create_attribute_response without an aa policy (applies no policy object: observation, lemma C07_attribute_response_no_policy) are outside the claim.",
     "technique": "machine-checked proof (Coq, induction over identities/policies/declarations; regex matcher and attribute map universally quantified) + regenerated-table obligation + function-level and end-to-end sequence correspondence + implementation-level release oracle",
 }
@@ -47,6 +47,9 @@ RULE = ("worlds = generated (policy, SP metadata set) pairs, each with ONE Serve
         "different SPs; identities with case variants, multi-valued, non-ASCII, empty lists; policy shapes default/per-SP, "
         "attribute_restrictions absent/None/{}/name-only/regex lists, entity_categories incl. ONLY_REQUIRED (edugain CoCo), "
         "fail_on_missing_requested on/off; SP declarations required/optional with and without value constraints, unsatisfiable ones; "
+        "restriction lists of 2-4 expressions with inline flags on the first/a later expression, scoped flags, alternation, anchors, classes, trailing .* and values "
+        "matching one/several/none/only-under-a-leaked-flag/only-by-search, under default and per-SP entries; EntityAttributes with several attribute Names "
+        "(category values under entity-category-support or another Name, any order, category Name twice); "
         "fixed worlds: every documented category row, every pattern x value of the regex pool, 8 policy shapes x 7 SPs x 5 identities on the "
         "missing-requirement path (create_authn_response, setup_assertion with both best_effort values, create_attribute_response). "
         "Non-trivial = the filter removed something, raised, or hit the MissingValue path; distinct by content.")
@@ -55,6 +58,10 @@ URI = "urn:oasis:names:tc:SAML:2.0:attrname-format:uri"
 BASIC = "urn:oasis:names:tc:SAML:2.0:attrname-format:basic"
 UNKNOWN_NF = "urn:example:attrname-format:unknown"
 EC_ATTR = "http://macedir.org/entity-category"
+EC_SUPPORT = EC_ATTR + "-support"
+OTHER_EA_NAMES = ["urn:oasis:names:tc:SAML:attribute:assurance-certification", "http://macedir.org/entity-category-other",
+                  "http://macedir.org/entity-categor", "entity-category"]
+OTHER_CAT = "http://example.org/category/other"
 PASSWORD = "urn:oasis:names:tc:SAML:2.0:ac:classes:Password"
 F3_KEY = "authn-response:best-effort-unfiltered-identity-on-missing-required"
 
@@ -121,6 +128,58 @@ VALUE_POOL = ["Anna", "a@example.org", "b@other.org", "staff", "student", "staff
               "s3cret", "anna", "member", "1"]
 RX_POOL = ["^a", ".*@example\\.org$", "staff", "s", "[A-Z]", ".*", "x|A", "Ü", "^$", "member$", "nomatch", "@example", "nna", "aff",
            "org$", "t", "(?i)ANNA", "a@example.org", "1"]
+
+
+# restriction LISTS of 2-4 expressions that use regular-expression features (global inline flag at the start of ONE
+# expression, scoped flags, alternation, anchors $ \Z ^, character classes, trailing .*), each with identity values that
+# match exactly one expression, none, or a later expression only if the first one's flag leaked onto it / only if the
+# expressions were merged into one alternation / only by an unanchored search.  The policy judges each expression on its own.
+RX_LISTS = [
+    (["(?i)anna", "bob", "carol$"], ["ANNA", "anna", "Bob", "BOB", "bob", "bobby", "carol", "Carol", "carolx", "dave", "xbob"]),
+    (["(?x) a n n a  # the given name", "b o b", "x y"], ["anna", "bob", "b o b", "xy", "x y", "a n n a"]),
+    (["(?s)a.b", "c.d$", "e.*f"], ["a\nb", "c\nd", "cxd", "e\nf", "exf", "cxd\n", "cxdx"]),
+    (["(?m)a$", "b$"], ["a\nx", "b\nx", "b", "b\n", "a"]),
+    (["(?i:staff)@example\\.org", "student@example\\.org$"],
+     ["STAFF@example.org", "staff@EXAMPLE.org", "STUDENT@example.org", "student@example.org", "student@example.orgx", "staff@example.orgx"]),
+    (["staff|student", "member$", "(?:alum|emp)$"], ["staffx", "student", "member", "memberx", "xstaff", "alum", "alumni", "emp", "employee"]),
+    (["a@example\\.org$", "b@other\\.org\\Z", "^c@x\\.org"],
+     ["a@example.org", "a@example.org\n", "b@other.org", "b@other.org\n", "a@example.orgx", "c@x.org.evil", "xc@x.org"]),
+    (["[a-c]x", "[^a-z]+$", "\\d{3}", "[A-Z][a-z]+\\Z"], ["ax", "Ax", "dx", "123", "12a", "1234", "Anna", "anna", "ANNA", "Anna1", "AX"]),
+    (["staff.*", "stu.*t$", ".*@example\\.org$"], ["staff@other.org", "student", "students", "x@example.org", "x@example.org.evil", "Staff"]),
+    (["bob", "(?i)anna"], ["BOB", "bob", "ANNA", "Anna"]),
+    (["carol", "(?s)a.b", "c.d\\Z"], ["a\nb", "c\nd", "Carol", "carols", "cxd"]),
+    (["(?i)^s3", "cret", "s3cre[t]\\Z"], ["S3CRET", "s3cret", "cret", "CRET", "xcret", "S3"]),
+    (["(?i)(?:anna|bob)$", "[c-d]arol|dave", "eve.*"], ["ANNA", "BOBx", "Carol", "carol", "DAVE", "dave", "Eve", "evening"]),
+]
+RX_LIST_VALUES = {tuple(l): vs for l, vs in RX_LISTS}
+_INLINE = re.I | re.X | re.S | re.M
+
+
+def _rx_try(f):
+    try:
+        return bool(f())
+    except re.error:
+        return False
+
+
+def rx_class(pats, v):
+    """how value v stands to the expression list: every expression is compiled and matched ON ITS OWN (re.match)"""
+    own = [p for p in pats if re.compile(p).match(v)]
+    if own:
+        return "matches-one-expression" if len(own) == 1 else "matches-several-expressions"
+    f0 = re.compile(pats[0]).flags & _INLINE
+    if f0 and any(_rx_try(lambda: re.compile(p, f0).match(v)) for p in pats[1:]):
+        return "none:later-expression-only-under-first-expressions-flag"
+    fall = 0
+    for p in pats:
+        fall |= re.compile(p).flags & _INLINE
+    if fall and any(_rx_try(lambda: re.compile(p, fall).match(v)) for p in pats):
+        return "none:only-under-another-expressions-flag"
+    if len(pats) > 1 and _rx_try(lambda: re.compile("|".join(pats)).match(v)):
+        return "none:only-as-one-merged-alternation"
+    if any(re.compile(p).search(v) for p in pats):
+        return "none:only-by-unanchored-search"
+    return "none"
 
 
 def ascii_lower(s):
@@ -243,7 +302,7 @@ def call(f, *a, **k):
 # --------------------------------------------------------------------------
 # generators
 # --------------------------------------------------------------------------
-def gen_identity(rng, focus=None):
+def gen_identity(rng, focus=None, vals=None):
     n = rng.choice([0, 1, 2, 3, 4, 5, 6, 8])
     pool = NAME_POOL if focus is None or rng.random() < 0.4 else focus
     names = []
@@ -254,7 +313,7 @@ def gen_identity(rng, focus=None):
     ident = {}
     for x in names:
         k = rng.choice([0, 1, 1, 1, 2, 2, 3])
-        ident[x] = [rng.choice(VALUE_POOL) for _ in range(k)]
+        ident[x] = [rng.choice(vals if vals and rng.random() < 0.6 else VALUE_POOL) for _ in range(k)]
     return ident
 
 
@@ -327,9 +386,20 @@ def gen_ar(rng):
             ar[name] = None
         elif q < 0.55:
             ar[name] = []
+        elif q < 0.75:
+            ar[name] = list(rng.choice(RX_LISTS)[0])
         else:
-            ar[name] = [rng.choice(RX_POOL) for _ in range(rng.choice([1, 1, 2]))]
+            ar[name] = [rng.choice(RX_POOL) for _ in range(rng.choice([1, 1, 2, 3]))]
     return ar
+
+
+def ar_values(*ars):
+    """the designed identity values of the feature lists used in these attribute_restrictions"""
+    out = []
+    for ar in ars:
+        for v in (ar or {}).values():
+            out += RX_LIST_VALUES.get(tuple(v or ()), [])
+    return out or None
 
 
 def gen_spec(rng, modules, default):
@@ -371,7 +441,33 @@ def gen_sp(rng, i):
     else:
         ecs = rng.sample(ALL_CATS, rng.choice([1, 1, 2, 3]))
     sup = rng.sample(ALL_CATS, 2) if rng.random() < 0.3 else None
-    return {"eid": eid, "acs": acs, "ecs": ecs, "ecs_support": sup}
+    spd = {"eid": eid, "acs": acs, "ecs": ecs, "ecs_support": sup}
+    if rng.random() < 0.4:
+        # several attribute Names inside the one EntityAttributes element, any order; the category Name possibly twice
+        ea = []
+        if ecs is not None:
+            cut = rng.randrange(len(ecs) + 1) if rng.random() < 0.4 else len(ecs)
+            ea.append((EC_ATTR, ecs[:cut]))
+            if cut < len(ecs):
+                ea.append((EC_ATTR, ecs[cut:]))
+        ea.append((EC_SUPPORT, sup or rng.sample(ALL_CATS, rng.choice([1, 2, 3]))))
+        if rng.random() < 0.5:
+            ea.append((rng.choice(OTHER_EA_NAMES), rng.sample(ALL_CATS, rng.choice([1, 2]))))
+        rng.shuffle(ea)
+        spd["ea"] = [e for e in ea if e[1]]
+    return spd
+
+
+def sp_eattrs(spd):
+    """the Attribute children of the SP's EntityAttributes element as written by sp_metadata: [(Name, values)]"""
+    if spd.get("ea") is not None:
+        return [(n, list(vs)) for n, vs in spd["ea"]]
+    ea = []
+    if spd.get("ecs_support"):
+        ea.append((EC_SUPPORT, list(spd["ecs_support"])))
+    if spd["ecs"] is not None:
+        ea.append((EC_ATTR, list(spd["ecs"])))
+    return ea
 
 
 def sp_view(spd):
@@ -384,6 +480,10 @@ def sp_view(spd):
             for d in ras:
                 (rq if d.get("is_required") == "true" else op).append(d)
         req = (rq, op)
+    if spd.get("ea") is not None:
+        # explicit EntityAttributes content [(Name, values)] in document order: only what is listed under the entity-category
+        # Name (every occurrence of it) are the SP's categories
+        return {"req": req, "ecs": [v for n, vs in spd["ea"] if n == EC_ATTR for v in vs]}
     return {"req": req, "ecs": list(spd["ecs"] or [])}
 
 
@@ -402,16 +502,48 @@ def sp_metadata(spd):
             index=str(i + 1), service_name=[md.ServiceName(text="svc", lang="en")], requested_attribute=elems))
     ed.spsso_descriptor = [sp]
     eattrs = []
-    if spd.get("ecs_support"):
+    if spd.get("ea") is not None:
+        for n, vs in spd["ea"]:
+            eattrs.append(saml.Attribute(name=n, name_format=URI, attribute_value=[saml.AttributeValue(text=e) for e in vs]))
+    elif spd.get("ecs_support"):
         # what the entity SUPPORTS is not what it is categorised as: must not entitle to anything
         eattrs.append(saml.Attribute(name=EC_ATTR + "-support", name_format=URI,
                                      attribute_value=[saml.AttributeValue(text=e) for e in spd["ecs_support"]]))
-    if spd["ecs"] is not None:
+    if spd["ecs"] is not None and spd.get("ea") is None:
         eattrs.append(saml.Attribute(name=EC_ATTR, name_format=URI, attribute_value=[saml.AttributeValue(text=e) for e in spd["ecs"]]))
     if eattrs:
         ea = mdattr.EntityAttributes(attribute=eattrs)
         ed.extensions = md.Extensions(extension_elements=[element_to_extension_element(ea)])
     return str(ed)
+
+
+def gen_world_policy(rng, sps, modules):
+    r = rng.random()
+    if r < 0.06:
+        pol = None
+    else:
+        pol = {}
+        if rng.random() < 0.85:
+            pol["default"] = gen_spec(rng, modules, True)
+        for spd in rng.sample(sps, rng.choice([0, 1, 2, 3, 4])):
+            pol[spd["eid"]] = gen_spec(rng, modules, False)
+        if pol and rng.random() < 0.04:
+            pol[rng.choice(sps)["eid"]] = None       # a None entry: TypeError on every lookup for that SP
+        if not pol:
+            pol = None
+    return pol, rng.choice([None, pol, pol])
+
+
+def mk_world(ctx, *a, **k):
+    """every generated policy is valid (each expression compiles on its own): a configuration the library rejects is reported"""
+    try:
+        return [World(*a, **k)]
+    except Exception as e:  # noqa
+        sps, pol, aa = k["fixed"] if k.get("fixed") else (None, None, None)
+        ctx.oracle_fail("policy-compile:valid-configuration-rejected:%s" % type(e).__name__,
+                        "building Server/Policy raised %s: %s for policy %s" % (type(e).__name__, e, json.dumps(pol, ensure_ascii=False)),
+                        {"unit": "compile", "policy": pol, "sps": sps})
+        return []
 
 
 class World(object):
@@ -422,20 +554,7 @@ class World(object):
             self.sps, self.pol, self.aa_pol = fixed
         else:
             self.sps = [gen_sp(rng, i) for i in range(nsp)]
-            r = rng.random()
-            if r < 0.06:
-                self.pol = None
-            else:
-                self.pol = {}
-                if rng.random() < 0.85:
-                    self.pol["default"] = gen_spec(rng, modules, True)
-                for spd in rng.sample(self.sps, rng.choice([0, 1, 2, 3, 4])):
-                    self.pol[spd["eid"]] = gen_spec(rng, modules, False)
-                if self.pol and rng.random() < 0.04:
-                    self.pol[rng.choice(self.sps)["eid"]] = None       # a None entry: TypeError on every lookup for that SP
-                if not self.pol:
-                    self.pol = None
-            self.aa_pol = rng.choice([None, self.pol, self.pol])
+            self.pol, self.aa_pol = gen_world_policy(rng, self.sps, modules)
         self.by_id = {s["eid"]: s for s in self.sps}
         conf = env.idp_conf()
         if self.pol is None:
@@ -452,6 +571,7 @@ class World(object):
         self.patterns = policy_patterns(self.pol)
         self.aa_patterns = policy_patterns(self.aa_pol)
         self.focus = self._focus()
+        self.vfocus = ar_values(*[(spec or {}).get("attribute_restrictions") for spec in list((self.pol or {}).values()) + list((self.aa_pol or {}).values())])
 
     def _focus(self):
         f = []
@@ -543,7 +663,8 @@ def violates(acs, pol, view, eid, ident, released):
             if pats:
                 for v in vs:
                     if not any(re.compile(p).match(v) for p in pats):
-                        return "attribute-restrictions:value-matches-no-pattern", "%s=%s" % (n, v)
+                        return ("attribute-restrictions:value-matches-no-single-expression(%s)" % rx_class(pats, v),
+                                "%s=%r against %r" % (n, v, pats))
     rq, op = view["req"] if view["req"] else ([], [])
     mods = applicable(pol, eid, "entity_categories")
     allow = set()
@@ -723,6 +844,14 @@ def unit_functions(ctx):
         if raw and rng.random() < 0.5:
             for k in list(ident)[:2]:
                 raw[rng.choice([k, k.lower()])] = rng.choice([None, [rng.choice(RX_POOL)], [rng.choice(RX_POOL), rng.choice(RX_POOL)]])
+        if raw and (i < 4 * len(RX_LISTS) or rng.random() < 0.3):
+            # a feature list of 2-4 expressions with its designed values (matching one / none / only under a leaked flag ...)
+            lst, vals = RX_LISTS[i % len(RX_LISTS)]
+            k = rng.choice(list(ident) or ["mail"])
+            for other in [x for x in raw if x.lower() == k.lower()]:
+                del raw[other]
+            raw[k.lower()] = list(lst)
+            ident[k] = rng.sample(vals, rng.randrange(1, len(vals) + 1)) if i >= len(RX_LISTS) else list(vals)
         # the function takes compiled restrictions with lower-cased keys; un-lowered keys are dead rows (as in the code)
         comp = None if raw is None else {(k.lower() if rng.random() < 0.9 else k): (None if v is None else [re.compile(p) for p in v])
                                          for k, v in raw.items()}
@@ -736,11 +865,17 @@ def unit_functions(ctx):
         if not isinstance(got, Exn):
             if impl != canon(ident):
                 ctx.nontriv(("favs", ident, src))
+            for k, vs in ident.items():
+                if src and len(src.get(k.lower()) or []) > 1:
+                    for v in vs:
+                        ctx.count("regex-list(filter_attribute_value_assertions):" + rx_class(src[k.lower()], v))
             if src:
                 for k, vs in got.items():
                     if k not in ident or k.lower() not in src or any(
                             v not in ident[k] or (src[k.lower()] is not None and not any(re.compile(p).match(v) for p in src[k.lower()])) for v in vs):
-                        ctx.oracle_fail("filter_attribute_value_assertions:keeps-unlisted",
+                        bad = [v for v in vs if k in ident and src.get(k.lower()) and not any(re.compile(p).match(v) for p in src[k.lower()])]
+                        ctx.oracle_fail("filter_attribute_value_assertions:keeps-unlisted" if not bad else
+                                        "filter_attribute_value_assertions:keeps-value-matching-no-single-expression(%s)" % rx_class(src[k.lower()], bad[0]),
                                         "filter_attribute_value_assertions kept %s=%s for identity %s under %s" % (k, vs, ident, src),
                                         {"unit": "filter_attribute_value_assertions", "identity": ident, "restrictions": src})
                         break
@@ -808,6 +943,19 @@ def ec_world(rng):
                     a = [x for x in ATTRS if x[0] == fr][0]
                     ras.append({"name": a[1], "name_format": URI, "friendly_name": fr, "is_required": "true" if fr != "givenName" else "false"})
             sps.append({"eid": "https://ec%d-%d.example.org/sp" % (i, variant), "acs": [ras] if ras else [], "ecs": list(k) or None})
+            if variant == 1 and k:
+                # the key's categories listed under ANOTHER attribute Name of the same EntityAttributes element (before / after /
+                # around the entity-category attribute, or without one): the SP is NOT of these categories
+                k = list(k)
+                eas = [[(EC_SUPPORT, k), (EC_ATTR, [OTHER_CAT])],
+                       [(EC_ATTR, [OTHER_CAT]), (EC_SUPPORT, k)],
+                       [(OTHER_EA_NAMES[i % len(OTHER_EA_NAMES)], k), (EC_SUPPORT, k)],
+                       # positive control: the category Name twice, the key split over both occurrences: entitled
+                       [(EC_ATTR, k[:1]), (EC_SUPPORT, [OTHER_CAT]), (EC_ATTR, k[1:] or [OTHER_CAT])]]
+                if len(k) > 1:
+                    eas += [[(EC_ATTR, k[:1]), (EC_SUPPORT, k[1:])], [(EC_SUPPORT, k[:1]), (EC_ATTR, k[1:])]]
+                for j, ea in enumerate(eas):
+                    sps.append({"eid": "https://ec%d-ea%d.example.org/sp" % (i, j), "acs": [ras], "ecs": None, "ea": ea})
     return sps
 
 
@@ -881,12 +1029,60 @@ def missing_worlds(rng, modules):
     return out
 
 
+def rx_feature_worlds(ctx, rng, modules):
+    """fixed worlds: every feature list of RX_LISTS under its own attribute name, in the default entry, rotated in a per-SP entry
+    (another list under the same name: nothing may carry over between compiled specs), reversed order in a third; one identity
+    per list holding all its designed values (+ a never-listed attribute), and one identity holding everything"""
+    late = [l for l in RX_LISTS if any(p.startswith("(?") and p[2] != ":" for p in l[0][1:])]
+    ws = [_rx_feature_world(ctx, rng, modules, [l for l in RX_LISTS if l not in late], "rxf"),
+          _rx_feature_world(ctx, rng, modules, late, "rxl")]
+    return [w for w in ws if w is not None]
+
+
+def _rx_feature_world(ctx, rng, modules, RX_LISTS, tag):
+    names = [a[0] for a in ATTRS if a[0] != "PVP-MAIL"][:len(RX_LISTS)]
+    sps = [{"eid": "https://%s0.example.org/sp" % tag, "acs": [], "ecs": None},
+           {"eid": "https://%s1.example.org/sp" % tag, "acs": [], "ecs": None},
+           {"eid": "https://%s2.example.org/sp" % tag, "ecs": None,
+            "acs": [[_ra(n, False, "uri" if i % 2 else "friendly") for i, n in enumerate(names)]]},
+           {"eid": "https://%s3.example.org/sp" % tag, "acs": [], "ecs": [COCO]}]
+    n = len(RX_LISTS)
+    lt = {"minutes": 15}
+    ar0 = {(nm if i % 3 else nm.upper()): list(RX_LISTS[i][0]) for i, nm in enumerate(names)}
+    ar1 = {nm: list(RX_LISTS[(i + 1) % n][0]) for i, nm in enumerate(names)}
+    ar3 = {nm: (list(reversed(RX_LISTS[i][0])) if tag == "rxl" else list(RX_LISTS[(i + 2) % n][0])) for i, nm in enumerate(names)}
+    pol = {"default": {"lifetime": lt, "attribute_restrictions": ar0},
+           sps[1]["eid"]: {"lifetime": lt, "attribute_restrictions": ar1},
+           sps[3]["eid"]: {"lifetime": lt, "attribute_restrictions": ar3, "entity_categories": []}}
+    try:
+        w = World(rng, 0, modules, fixed=(sps, pol, pol))
+    except Exception as e:  # noqa
+        ctx.oracle_fail("policy-compile:valid-configuration-rejected:%s" % type(e).__name__,
+                        "building Server/Policy raised %s: %s for policy %s" % (type(e).__name__, e, json.dumps(pol, ensure_ascii=False)),
+                        {"unit": "compile", "policy": pol, "sps": sps})
+        return None
+    script = []
+    full = {}
+    for i, nm in enumerate(names):
+        vals = list(RX_LISTS[i][1])
+        key = nm if i % 2 else nm.lower()
+        full[key] = vals + RX_LISTS[(i + 1) % n][1]
+        for e, kind in ((0, "authn"), (0, "restrict"), (1, "authn"), (2, "attr"), (3, "authn"), (1, "restrict")):
+            use = vals if e != 1 else vals + RX_LISTS[(i + 1) % n][1]
+            script.append((kind, sps[e]["eid"], {key: list(use), "uid": ["s3cret"]}))
+    for spd in sps:
+        for kind in ("authn", "attr", "restrict", "setup", "authn-rp"):
+            script.append((kind, spd["eid"], copy.deepcopy(full)))
+    w.script = script
+    return w
+
+
 def unit_worlds(ctx):
     rng = ctx.rng
     modules = translate_c07.ec_module_names()
     nworld = 26 if ctx.quick else 220
     nreq = 45 if ctx.quick else 90
-    per = {k: [] for k in ("policy_filter", "restrict", "setup_assertion", "e2e_authn", "e2e_attribute")}
+    per = {k: [] for k in ("policy_filter", "restrict", "setup_assertion", "e2e_authn", "e2e_attribute", "md_entity_categories")}
     worlds = []
     # fixed worlds: one per entity-category module over the SPs of ec_world (every documented row is walked), + F3 witness world
     ecsps = ec_world(rng)
@@ -913,8 +1109,12 @@ def unit_worlds(ctx):
     rx_world.script = [(k, e["eid"], copy.deepcopy(rx_ident)) for e in rx_sps for k in ("authn", "attr", "restrict")]
     worlds.append(rx_world)
     worlds += missing_worlds(rng, modules)
+    worlds += rx_feature_worlds(ctx, rng, modules)
+    nfixed_all = len(worlds)
     for i in range(nworld):
-        worlds.append(World(rng, len(worlds), modules))
+        sps = [gen_sp(rng, j) for j in range(7)]
+        pol, aa = gen_world_policy(rng, sps, modules)
+        worlds += mk_world(ctx, rng, len(worlds), modules, fixed=(sps, pol, aa))
     unit_entity_categories(ctx, worlds[-1])
     full_ec_ident = {}
     for n in sorted({a for m in DOC_EC.values() for attrs, _ in m.values() for a in attrs}):
@@ -938,7 +1138,7 @@ def unit_worlds(ctx):
             for j in range(nreq):
                 # alternate between SPs, repeat the same one, and reuse the previous identity for another SP
                 e = rng.choice(eids) if (last is None or rng.random() < 0.8) else last
-                ident = gen_identity(rng, w.focus)
+                ident = gen_identity(rng, w.focus, w.vfocus)
                 if seq and rng.random() < 0.25:
                     ident = copy.deepcopy(seq[-1][2])
                 else:
@@ -947,9 +1147,35 @@ def unit_worlds(ctx):
                 seq.append((kind, e, ident))
                 last = e
             seq.append(("restrict", "https://unknown.example.org/sp", gen_identity(rng, w.focus)))
+        for spd in w.sps:
+            # the metadata lookup the category filter rests on: only values listed under the entity-category Name count
+            got = call(w.server.metadata.entity_categories, spd["eid"])
+            want = w.view(spd["eid"])["ecs"]
+            if wi == 0 or wi >= nfixed_all:
+                per["md_entity_categories"].append(dict(
+                    id=len(per["md_entity_categories"]), impl=got,
+                    coq=clist(sp_eattrs(spd), lambda e: "(%s, %s)" % (cstr(e[0]), clist(e[1], cstr))),
+                    show={"sp": spd["eid"], "EntityAttributes": sp_eattrs(spd)}))
+            else:
+                ctx.evaluations += 1
+            if spd.get("ea") is not None or spd.get("ecs_support"):
+                ctx.count("metadata:EntityAttributes-with-several-attribute-names")
+            if got != want:
+                foreign = [] if isinstance(got, Exn) else [c for c in got if c not in want]
+                ctx.oracle_fail("metadata:entity-categories:%s" % ("counts-values-of-another-attribute-name" if foreign else "differs"),
+                                "MetadataStore.entity_categories(%s) = %r, the entity-category attribute lists %r (EntityAttributes: %r)" % (
+                                    spd["eid"], got, want, spd.get("ea") or {"ecs": spd["ecs"], "support": spd.get("ecs_support")}),
+                                {"unit": "md_entity_categories", "sps": [spd], "sp": spd["eid"]})
         for kind, eid, ident in seq:
             view = w.view(eid)
             shape = pol_shape(w.pol, eid)
+            _ar = applicable(w.aa_pol if kind == "attr" else w.pol, eid, "attribute_restrictions")
+            if _ar:
+                _low = {k.lower(): v for k, v in _ar.items()}
+                for k, vs in ident.items():
+                    if len(_low.get(k.lower()) or []) > 1:
+                        for v in vs:
+                            ctx.count("regex-list(%s):%s" % (kind, rx_class(_low[k.lower()], v)))
             if kind in ("authn", "authn-rp"):
                 # authn-rp: the per-request release_policy argument (a second long-lived Policy object of the same configuration)
                 got = call(do_authn, w.server, eid, ident, w.policy if kind == "authn-rp" and w.pol else None)
@@ -1034,6 +1260,7 @@ def unit_worlds(ctx):
                    "(pcase * (list decl * list decl))", per["policy_filter"], shard=60)
     ctx.correspond("restrict", "Model.Policy", "run_restrict", "pcase", per["restrict"], shard=60)
     ctx.correspond("setup_assertion", "Model.Policy", "fun x => run_setup (fst x) (snd x)", "(pcase * bool)", per["setup_assertion"], shard=60)
+    ctx.correspond("md_entity_categories", "Model.PolicyRx", "run_md_ecs", "eattrs", per["md_entity_categories"], shard=150)
     ctx.correspond("e2e_authn", "Model.Policy", "run_authn", "pcase", per["e2e_authn"], shard=60)
     ctx.correspond("e2e_attribute", "Model.Policy", "fun x => run_attribute (fst x) (snd x)", "(pcase * bool)", per["e2e_attribute"], shard=60)
     ctx.extra["worlds"] = len(worlds)
@@ -1102,6 +1329,11 @@ def replay(ctx, payload):
         rel = dict(got[1]) if isinstance(got, list) and len(got) > 1 else got if isinstance(got, dict) else None
         if rel is not None:
             print("oracle:", violates(w.acs, inp["policy"], w.view(inp["sp"]), inp["sp"], inp["identity"], {k: list(v) for k, v in rel.items()}))
+    elif unit == "compile":
+        print("implementation:", call(lambda: World(ctx.rng, 0, [], fixed=(inp["sps"], inp["policy"], inp["policy"])) and "accepted"))
+    elif unit == "md_entity_categories":
+        w = World(ctx.rng, 0, [], fixed=(inp["sps"], None, None))
+        print("implementation:", call(w.server.metadata.entity_categories, inp["sp"]), " entity-category attribute lists:", w.view(inp["sp"])["ecs"])
     elif unit == "filter_on_attributes":
         print("implementation:", call(A.filter_on_attributes, inp["identity"], inp["required"], inp["optional"], ac_factory(), inp["fail"]))
     elif unit == "filter_attribute_value_assertions":
